@@ -403,6 +403,9 @@ def run_attr(torch, DUCCIO, BaseRegularizer, variant, hist, model=None, poke=Non
 PAIR_NAMES = {2: ["ops", "params"], 3: ["mem", "ops", "params"]}      # alphabetical; rank r -> PAIR_NAMES[k][r-1]
 
 
+INF_T = 1000000
+
+
 def run_pair(torch, DUCCIO, sc, model=None, alpha_names=None):
     """sc: {rank, s, t, c, e, n} in CALLER order. The targets dict is built in that insertion order with real metric
     names whose alphabetical ranks are sc['rank']; final_strengths is the positional tuple."""
@@ -412,7 +415,7 @@ def run_pair(torch, DUCCIO, sc, model=None, alpha_names=None):
         raise tlc.MachineryError("pair: names do not realise the requested alphabetical ranks")
     targets = {}
     for nm, t in zip(names, sc["t"]):
-        targets[nm] = torch.tensor(float(t))
+        targets[nm] = torch.tensor(float("inf") if t == INF_T else float(t))     # Duccio!INF = an infinite target
     reg = DUCCIO(targets, final_strengths=tuple(_f(torch, s_ * U) for s_ in sc["s"]))
     mdl = model if model is not None else Stub(torch, dict(zip(names, sc["c"])))
     val = reg(mdl) if (sc["e"], sc["n"]) == (1, 1) and sc.get("d") else reg(mdl, sc["e"], sc["n"])
@@ -675,6 +678,7 @@ def run(tier: str, seed: int, replay=None) -> int:
     pdot = tempfile.mktemp(prefix="c19p-", suffix=".dot", dir=tlc.scratch())
     pres = R.design("DuccioPair", "DuccioPair_quick", workers=4, dump_dot=pdot)
     R.design("DuccioPair", "DuccioPair_sorted", workers=4, expect_ok=False)
+    R.design("DuccioPair", "DuccioPair_dropinf", workers=4, expect_ok=False)
 
     traces, scen = [], []
     # ---- 2p. spec -> code: every pairing scenario on the real DUCCIO (stub model with real metric names)
